@@ -8,8 +8,9 @@
 (* over.  Many traces are validated by one TLC run: a "Reset" event starts *)
 (* a fresh store.                                                          *)
 (*                                                                         *)
-(* Acceptance: the high-water mark of the trace position (TLC register 1)  *)
-(* reaches Len(Trace)+1.  Run with -workers 1, CHECK_DEADLOCK FALSE and    *)
+(* Acceptance: the position reaches Len(Trace)+1 (the search stops at once *)
+(* via TLCSet("exit")); otherwise, after an exhaustive search, the high-    *)
+(* water mark of the position (TLC register 1) tells where it failed.        Run with -workers 1, CHECK_DEADLOCK FALSE and    *)
 (* -Dtlc2.tool.queue.IStateQueue=StateDeque.                               *)
 (***************************************************************************)
 EXTENDS AbsTxn, TLC, Json, IOUtils
@@ -37,9 +38,15 @@ TClose      == IsEv("Close")      /\ Close
 TCrash      == IsEv("Crash")      /\ Crash
 TOpen       == IsEv("Open")       /\ Open
 
-Silent == /\ l <= Len(Trace)
+\* The linearization point of a Commit is not observable.  It only matters relative to
+\* events that read the commit order (the response of a Begin, the response of a Commit, a
+\* crash): an LPCommit can always be postponed past invocations, Gets and Puts.  So silent
+\* steps are explored only immediately before such an event - this prunes the search without
+\* losing any linearization.
+NextReads == l <= Len(Trace) /\ E.ev \in {"BeginResp", "CommitResp", "Crash", "Close"}
+Silent == /\ NextReads
           /\ UNCHANGED l
-          /\ \E x \in Workers : LPBegin(x) \/ LPCommit(x)
+          /\ \E x \in Workers : LPCommit(x)
 
 TNext == \/ TReset \/ TBeginInv \/ TBeginResp \/ TGet \/ TPut \/ TDiscard
          \/ TCommitInv \/ TCommitResp \/ TClosedCall \/ TClose \/ TCrash \/ TOpen
@@ -47,9 +54,12 @@ TNext == \/ TReset \/ TBeginInv \/ TBeginResp \/ TGet \/ TPut \/ TDiscard
 
 TSpec == TInit /\ [][TNext]_tvars
 
-\* high-water mark of the position (silent steps make the diameter useless)
+\* high-water mark of the position (silent steps make the diameter useless); reaching the
+\* end of the trace stops the search at once
 ASSUME TLCSet(1, 0)
-HighWater == TLCSet(1, IF TLCGet(1) < l THEN l ELSE TLCGet(1))
+HighWater == /\ TLCSet(1, IF TLCGet(1) < l THEN l ELSE TLCGet(1))
+             /\ (l > Len(Trace)) => /\ PrintT(<<"HIGHWATER", l, Len(Trace)>>)
+                                    /\ TLCSet("exit", TRUE)
 Accepted  == /\ PrintT(<<"HIGHWATER", TLCGet(1), Len(Trace)>>)
              /\ TLCGet(1) = Len(Trace) + 1
 =============================================================================
